@@ -150,26 +150,32 @@ for (n, ty, groups) in [("file_name", "FileName", (0, 1, 2, 3)), ("file_path", "
                         ("path", "Path", (0, 1, 2, 3)), ("restricted", "RestrictedFileName<2>", (0, 1, 2, 3)),
                         ("user_name", "UserName", (0, 1)), ("base64url", "Base64Url", (1,))]:
     for g in groups:
-        _c19.append(H("c19::c19_%s_edit_g%d" % (n, g), covers=2, timeout=1800, mem_gb=8,
+        small = n == "restricted"
+        # the full-size types are 255-byte strings: ~8 M variables per editing operation (array theory), 20+ GB;
+        # RestrictedFileName<2> runs the same generic SemanticString code with FileName's rules in the quick tier
+        _c19.append(H("c19::c19_%s_edit_g%d" % (n, g), covers=2, timeout=1800 if small else 3600,
+                      mem_gb=8 if small else 22, tiers=("quick", "thorough") if small else ("thorough",),
                       what="%s: one symbolic %s on an arbitrary accepted value either is refused without change or "
                            "yields the model result, which is itself acceptable" % (ty, _GROUPS[g]),
                       bounds="unwind 8; start value length <= 2 (FilePath g1-g3: <= 3), all bytes, all indices"))
 for g in (0, 1, 2, 3):
-    _c19.append(H("c19::c19_file_name_edit_g%d_3" % g, covers=2, timeout=3600, mem_gb=12, tiers=("thorough",),
+    _c19.append(H("c19::c19_file_name_edit_g%d_3" % g, covers=2, timeout=5400, mem_gb=26, tiers=("thorough",),
                   what="FileName: %s, start value length <= 3" % _GROUPS[g], bounds="unwind 8; start length <= 3"))
 _c19.append(H("c19::c19_file_name_find_rfind", covers=1, timeout=1500, mem_gb=6,
               what="SemanticString::find/rfind vs model search", bounds="unwind 8; length <= 4, one byte needle"))
-_c19.append(H("c19::c19_file_path_compose", covers=1, timeout=1500, mem_gb=6,
+_c19.append(H("c19::c19_file_path_compose", covers=1, timeout=5400, mem_gb=26, tiers=("thorough",),
               what="FilePath::from_path_and_file keeps directory and file parts, file_name() round-trips",
               bounds="unwind 10; path length <= 3, file length <= 2"))
 
 PROPS["C19"] = {
     "bounds": "byte strings of length <= 3 (quick) / <= 4 (thorough) over the full byte range for FileName, "
               "RestrictedFileName<2>, Path, FilePath, UserName, GroupName, Base64Url; one editing operation from "
-              "every accepted start value of length <= 2 (quick) / <= 3 (thorough)",
+              "every accepted start value of length <= 2 (quick: RestrictedFileName<2>; thorough: also the 255-byte "
+              "types, start length <= 3); ServiceName <= 8 bytes, NodeName <= 4 bytes; domain isolation for prefixes and "
+              "names of 1-2 bytes, 4 roots",
     "outside": "strings longer than 4 bytes (in particular the behaviour at the 255 byte capacity limit); Windows "
-               "rules; ServiceName/NodeName and the config/naming-scheme layer of the iceoryx2 crate; everything that "
-               "turns names into files on disk (directory listing, cleanup)",
+               "rules; the config/naming-scheme layer of the iceoryx2 crate; everything that turns names into files on "
+               "disk (directory listing, cleanup)",
     "assumptions": ["the specification predicates in c19.rs are written from the documentation of the types: code "
                     "points < 128 without NUL, per-type forbidden bytes, per-type forbidden contents"],
     "harnesses": _c19,
@@ -675,12 +681,12 @@ PROPS["C16"].update({
                   "(<= 30 lines each)",
 })
 PROPS["C19"].update({
-    "level_text": _BMC + ". For every semantic string type of bb/system-types: accept-iff-documented-rule and "
-                  "round-trip for all byte strings up to the bound, and every editing operation keeps an accepted "
-                  "value acceptable and equal to the model; FilePath composition; (cal) path_for/extract_name "
-                  "domain isolation for symbolic prefixes and suffixes.",
-    "level_note": "strings <= 4 bytes; the specification predicates in c19.rs are trusted; ServiceName/NodeName, config "
-                  "and directory listing are outside the claim",
+    "level_text": _BMC + ". For every semantic string type of bb/system-types plus ServiceName / NodeName: "
+                  "accept-iff-documented-rule and round-trip for all byte strings up to the bound; every editing "
+                  "operation keeps an accepted value acceptable and equal to the model (quick: RestrictedFileName<2>, "
+                  "the same generic SemanticString code with FileName's rules; thorough: the 255-byte types); find / "
+                  "rfind; (cal) path_for shape and extract_name_from_file / extract_name_from_path isolation for "
+                  "symbolic prefixes, names, suffixes and four root constellations.",
 })
 
 _SCHED = ("Schedules: the atomics crate (iceoryx2-pal-concurrency-sync) is swapped for a generated drop-in in which "
